@@ -288,8 +288,12 @@ def _big_stack():
             pass
 
 
+HARNESS_ENV = dict(os.environ, ASAN_OPTIONS="detect_leaks=0:abort_on_error=0", UBSAN_OPTIONS="print_stacktrace=1")
+
+
 def run_lines(exe, lines, timeout=600, args=(), env=None):
     """Run exe with the case lines on stdin; return list of output lines (one per case expected)."""
+    env = env or HARNESS_ENV
     data = ("\n".join(lines) + "\n").encode()
     p = subprocess.run([exe] + list(args), input=data, stdout=subprocess.PIPE, stderr=subprocess.PIPE,
                        timeout=timeout, env=env, preexec_fn=_big_stack)
@@ -308,7 +312,7 @@ def run_lines_sharded(exe, lines, shards=None, timeout=900, args=()):
     parts = [lines[i:i + n] for i in range(0, len(lines), n)]
     procs = []
     for part in parts:
-        p = subprocess.Popen([exe] + list(args), stdin=subprocess.PIPE, stdout=subprocess.PIPE, stderr=subprocess.PIPE, preexec_fn=_big_stack)
+        p = subprocess.Popen([exe] + list(args), stdin=subprocess.PIPE, stdout=subprocess.PIPE, stderr=subprocess.PIPE, preexec_fn=_big_stack, env=HARNESS_ENV)
         procs.append((p, part))
     import threading
     results = [None] * len(procs)
@@ -355,6 +359,8 @@ class Ctx:
         self.rng = random.Random(seed * 1000003 + sum(map(ord, pid)))
         self.t0 = time.time()
         self.scratch = tempfile.mkdtemp(prefix="lv.%s." % pid, dir="/var/tmp")
+        os.makedirs(os.path.join(self.scratch, "tmp"), exist_ok=True)
+        HARNESS_ENV["TMPDIR"] = os.path.join(self.scratch, "tmp")
         self.violations = []      # (key, what, replay_obj)
         self.known_hits = []
         self.cov = dict(obligations=0, discharged=0, checker_cmd="", trusted_base=list(TRUSTED_BASE),
